@@ -267,16 +267,29 @@ func seqLen(x value) int64 {
 }
 
 // concIndex: symbolic index -> fork on out-of-range (Go run-time panic), then concretise.
-func concIndex(x, idx value) value {
+func concIndex(x, idx value, it types.Type) value {
 	s, ok := idx.(sym)
 	if !ok {
 		return idx
 	}
 	n := seqLen(x)
 	w := s.t.sort.width()
-	// Go index expressions: any integer type; negative or >= len panics. Unsigned compare covers
-	// both for signed types of the same width.
-	inr := mk(oULt, sBool, s.t, tBV(w, uint64(n)))
+	_, signed, _ := sortOf(it)
+	// Go index expressions: any integer type; negative or >= len panics.
+	var inr *term
+	if w < 64 && uint64(n) >= uint64(1)<<uint(w) {
+		// every non-negative value of this narrow type is below len
+		if signed {
+			inr = mk(oSLe, sBool, tBV(w, 0), s.t)
+		} else {
+			inr = mkBool(true)
+		}
+	} else if signed {
+		// unsigned compare covers negative values too (they are huge when read unsigned)
+		inr = mk(oULt, sBool, s.t, tBV(w, uint64(n)))
+	} else {
+		inr = mk(oULt, sBool, s.t, tBV(w, uint64(n)))
+	}
 	if !explorer.decide(inr) {
 		rtPanic(fmt.Sprintf("runtime error: index out of range [symbolic] with length %d", n))
 	}
